@@ -31,6 +31,7 @@ typedef IntrusivePtr<Derived> DP;
 struct Ctx
 {
   int tid;
+  bool past_barrier = false;  // no more reads of thread 0's handles (thread 0 may now change them)
   alignas(BP) unsigned char storage[C08_SLOTS][sizeof(BP)];
   bool live[C08_SLOTS];
   DP dslot[2];
@@ -61,6 +62,8 @@ void do_op(Ctx &c, const C08Op &op)
   // both halves agree)
   int md = c08_model_slot(c.tid, d);
   bool dst_live = md != -2;
+  if (op.src_kind == 1 && c.tid != 0 && c.past_barrier)
+    return;
   switch (op.kind) {
   case C08_COPY_CTOR:
   case C08_RAW_CTOR:
@@ -223,8 +226,17 @@ extern "C" void c08_run()
     for (int t = 1; t <= p->nthreads; t++)
       ths.emplace_back([=]() {
         Ctx &c = *ctxs[t];
-        for (int k = 0; k < p->nops[t - 1]; k++)
+        for (int k = 0; k < p->nops[t - 1]; k++) {
+          if (k == p->barrier_at[t - 1]) {
+            c.past_barrier = true;
+            c08_barrier_arrive(t);
+          }
           do_op(c, p->ops[t - 1][k]);
+        }
+        if (!c.past_barrier) {
+          c.past_barrier = true;
+          c08_barrier_arrive(t);
+        }
         finish_ctx(c);
       });
     // meanwhile the creator may give up its own reference
@@ -235,6 +247,12 @@ extern "C" void c08_run()
         objs[i]->refDec();
         c08_creator_release_post(i);
       }
+    if (p->t0_drops_during && p->nthreads) {
+      // once no thread reads thread 0's handles any more, thread 0 gives up its references while the
+      // threads still copy and drop theirs: the last reference is then released by one of them
+      c08_wait_barriers(p->nthreads);
+      finish_ctx(c0);
+    }
     for (auto &t : ths)
       t.join();
   }
